@@ -2,6 +2,7 @@
 import BioCantor.Driver.Proto
 import BioCantor.Spec.Location
 import BioCantor.Model.Location
+import BioCantor.Model.RelativeTo
 namespace BioCantor.Driver.Loc
 open BioCantor BioCantor.Proto BioCantor.Model
 
@@ -32,6 +33,9 @@ def ops : List (String × Op) := [
   ("overlap", do
       let a ← pLoc; let b ← pLoc; let ms ← pBool; let fs ← pBool
       pure (showR showBool (do let x ← a; let y ← b; hasOverlap x y ms fs))),
+  ("locrel", do
+      let a ← pLoc; let b ← pLoc; let opt ← pBool
+      pure (showR showLocation (do let x ← a; let y ← b; locationRelativeTo x y opt))),
   ("spec.bases", do
       let l ← pLoc
       pure (showR showNatList (do let x ← l; pure (Spec.locationBases x))))
